@@ -36,7 +36,7 @@ func init() {
 	register(&Property{
 		ID:    "C23",
 		Level: "exploration",
-		Rule: "cases = 1..4 legacy swamps x <=30 writes/modifies/deletes (chunk size 200..8192 bytes, all value kinds, metadata) produced by the real V1 engine; migrator options Verify/DeleteOld/Parallel seeded; fault plan: none | one failing file operation of the migration (EIO/ENOSPC/short write, operation index seeded over the operations the fault-free migration issues) | a stale .hyd next to the folder | the new file silently damaged when its writer closes it (cut, flipped byte, zeroed run); " +
+		Rule: "cases = 1..4 legacy swamps x <=30 writes/modifies/deletes (chunk size 200..8192 bytes, all value kinds, metadata) produced by the real V1 engine; migrator options Verify/DeleteOld/Parallel seeded; fault plan: none | one failing file operation of the migration (EIO/ENOSPC/short write, operation index seeded over the operations the fault-free migration issues) | a stale .hyd next to the folder | the new file silently damaged when its writer closes it (cut, flipped byte, zeroed run) | one failing read of the migration (EIO/EACCES/EMFILE on a legacy chunk, a meta file or the verification); " +
 			"oracle: for each swamp, migration reported success => V2 load == V1 load (keys, values, metadata) and the stored name == the swamp's name; reported failure => the V1 folder still loads exactly as before; non-trivial = at least one swamp with modified or deleted records was migrated, or a fault fired; distinct = hash of (history, options, fault, outcome)",
 		Gen: genC23,
 		Run: runC23,
@@ -54,7 +54,7 @@ func genC23(seed uint64, tier string) Case {
 	c.Cfg["verify"] = int64(r.intn(2))
 	c.Cfg["delete_old"] = int64(r.intn(2))
 	c.Cfg["parallel"] = int64(1 + r.intn(4))
-	c.Cfg["fault"] = int64(r.pick(5, 4, 2, 2)) // 0 none, 1 one failing op, 2 stale .hyd, 3 the new file is silently damaged when its writer closes it
+	c.Cfg["fault"] = int64(r.pick(5, 4, 2, 2, 3)) // 0 none, 1 one failing op, 2 stale .hyd, 3 the new file is silently damaged when its writer closes it
 	c.Cfg["fault_pos"] = int64(r.intn(1000))
 	c.Cfg["fault_kind"] = int64(r.intn(3))
 	nsw := 1 + r.intn(4)
@@ -92,6 +92,7 @@ func runC23(t *testing.T, c Case) (res Result) {
 	names := []string{"legacy/data/one", "legacy/data/two", "legacy/other/three", "legacy/other/four"}
 	var v *Result
 	faultFired := false
+	legacyDup := false // the legacy folder holds several versions of a key (seen by a fault-free migration of a copy)
 	modified := false
 	outcome := ""
 	out := runSim(t, c.Sched, func() {
@@ -247,7 +248,9 @@ func runC23(t *testing.T, c Case) (res Result) {
 		if fault == 1 {
 			clone := disk.Clone()
 			before := clone.OpCount()
-			runMigration(clone)
+			if rc, _, _ := runMigration(clone); rc != nil && rc.DuplicateKeys > 0 {
+				legacyDup = true
+			}
 			total := clone.OpCount() - before
 			if total > 0 {
 				seq := disk.OpCount() + int(c.cfg("fault_pos", 0))%total
@@ -264,9 +267,20 @@ func runC23(t *testing.T, c Case) (res Result) {
 		if fault == 3 {
 			disk.SetDamageOnClose(".hyd", int(c.cfg("fault_kind", 0)))
 		}
+		if fault == 4 {
+			// one read of the migration (a legacy chunk, a meta file, the verification of the new file) fails
+			clone := disk.Clone()
+			before := clone.Stats().Reads
+			if rc, _, _ := runMigration(clone); rc != nil && rc.DuplicateKeys > 0 {
+				legacyDup = true
+			}
+			if total := clone.Stats().Reads - before; total > 0 {
+				disk.SetReadFault(disk.Stats().Reads+int(c.cfg("fault_pos", 0))%total, []syscall.Errno{syscall.EIO, syscall.EACCES, syscall.EMFILE}[c.cfg("fault_kind", 0)%3])
+			}
+		}
 		legacyImage := disk.Clone() // the legacy folders as the migration finds them
 		rr, rerr, finished := runMigration(disk)
-		faultFired = len(disk.Stats().FiredSeqs) > 0 || disk.Stats().SilentDamage > 0
+		faultFired = len(disk.Stats().FiredSeqs) > 0 || disk.Stats().SilentDamage > 0 || disk.Stats().ReadFaults > 0
 		disk.ClearFaults()
 		disk.SetDamageOnClose("", 0)
 		if !finished {
@@ -291,7 +305,9 @@ func runC23(t *testing.T, c Case) (res Result) {
 			return
 		}
 		var possible map[string]map[string][]*mrec // swamp -> key -> every record the legacy engine can load for it (nil entry = absent)
-		if rr.DuplicateKeys > 0 {
+		if rr.DuplicateKeys > 0 || legacyDup {
+			// (legacyDup: the fault-free migration of a copy saw the duplicates; a migration that failed while loading
+			// reports none)
 			// the legacy folder holds several versions of one key (the legacy writer can lose a record's file
 			// pointer when it splits a chunk and then stores the next modification as a new record). Across chunk
 			// files the version the legacy engine loads depends on its map iteration order (the last file wins), so
